@@ -1061,8 +1061,21 @@ fn compare_on_exporter_trees(c: &Case, cfg: Cfg, pi: usize, meta: &PipelineDescr
 
 fn special_programs() -> Vec<(String, String)> {
     let mut v: Vec<(String, String)> = Vec::new();
-    let mut add = |n: &str, s: &str| v.push((n.to_string(), s.to_string()));
     // smallest forms of what the larger spaces found (kept first so that they become the replay of their class)
+    // the predefined-macro environment apart from RSSL_TARGET_* must be the same on every target (added after a seeded
+    // change that defined __HLSL_VERSION for the HLSL targets only was missed): each candidate name is tested for
+    // definedness and used as a value, in one program each
+    for name in ["__HLSL_VERSION", "__cplusplus", "__METAL_VERSION__", "__RSSL__", "RSSL", "__spirv__", "__SHADER_TARGET_MAJOR", "__STDC__", "__LINE__", "__FILE__", "HLSL", "MSL", "VULKAN", "__hlsl_dx_compiler"] {
+        v.push((
+            format!("predefined-macro-ifdef-{}", name),
+            format!("#ifdef {n}\nstatic const int k = 1;\n#else\nstatic const int k = 2;\n#endif\n[numthreads(1, 1, 1)] void CS() {{ int x = k; }}\nPipeline P {{ ComputeShader = CS; }}\n", n = name),
+        ));
+        v.push((
+            format!("predefined-macro-value-{}", name),
+            format!("#if {n} >= 2021\nstatic const int k = 1;\n#elif {n} > 0\nstatic const int k = 2;\n#else\nstatic const int k = 3;\n#endif\nstatic const int m = {n};\n[numthreads(1, 1, 1)] void CS() {{ int x = k + m; }}\nPipeline P {{ ComputeShader = CS; }}\n", n = name),
+        ));
+    }
+    let mut add = |n: &str, s: &str| v.push((n.to_string(), s.to_string()));
     add("minimal-static-buffer-address", "static BufferAddress s_addr;\n[numthreads(1, 1, 1)] void CS() { }\nPipeline P { ComputeShader = CS; }\n");
     add("minimal-resource-named-like-its-struct", "struct Light { float4 colour; };\nStructuredBuffer<Light> Light;\n[numthreads(1, 1, 1)] void CS() { }\nPipeline P { ComputeShader = CS; }\n");
     add(
